@@ -35,6 +35,13 @@ def plan(tier, seed):
 def make_case(seed, prop, shard, i, features):
     r = random.Random(f"{seed}:{prop}:{shard}:{i}")
     g = lang.Gen(r, features)
+    if r.random() < 0.22:
+        # stratum: no header row, the scan starts at line 0 and headers are addressed by index -
+        # line 0 is an ordinary data line here (values first seen on it recur later)
+        prog = g.program(scan=r.choice(["*", "*", "0*", "0-5", "0-3", "0+2-6"]))
+        prog["comps"] = [lang.index_headers(c) for c in prog["comps"]]
+        rows = lang.data_rows(r, header_prob=0.0)
+        return lang.tolist(prog), rows
     prog = g.program()
     rows = lang.data_rows(r)
     return lang.tolist(prog), rows
